@@ -82,6 +82,11 @@ def gen(ctx):
                    r=rng.choice([1, 1, 2, 3]) if min(R, C) >= 3 else rng.choice([1, 1, min(R, C)]),      # the centre of a (2r+1)^2 block, any r
                    nb=rng.choice(["moore", "vn"]), inner=rng.choice(["hash:%d:3:1:0" % k, "probe:%d:2:1:0" % k]),
                    rand=int(rng.random() < 0.3), seed=rng.randrange(10 ** 6))
+    for _ in range(ctx.n(40, 300)):
+        num = rng.randint(2, 9) if rng.random() < 0.5 else [rng.randint(2, 4), rng.randint(2, 5)]
+        L = num if isinstance(num, int) else num[0] * num[1]
+        yield dict(kind="twin", num=num, T=rng.randint(2, L + 3), T2=rng.randint(2, L + 3), T3=rng.randint(2, 2 * L + 2),
+                   early=int(rng.random() < 0.4), given=int(rng.random() < 0.25), seed=rng.randrange(10 ** 6))
     for _ in range(ctx.n(60, 600)):
         if rng.random() < 0.5:
             yield dict(kind="init", num=rng.randint(1, 12), seed=rng.randrange(10 ** 6))
@@ -90,7 +95,7 @@ def gen(ctx):
 
 
 def line(c):
-    if c["kind"] in ("init", "cont"):
+    if c["kind"] in ("init", "cont", "twin"):
         return None
     T = c["T"]
     if c["kind"] == "as1":
@@ -165,8 +170,73 @@ def oracle_cont(c):
     return None
 
 
+def oracle_twin(c):
+    """TWO AsynchronousRule objects for automata of the same size, the second one built (and used) between two
+    calls that the first one drives: each object walks cyclically through ITS OWN order (the one it held right
+    after its construction), one listed cell per step; an order generated from num_cells stays a permutation."""
+    import cellpylib as cpl
+    saved = np.random.shuffle
+    np.random.shuffle = FakeShuffle(c["seed"])
+    try:
+        num = c["num"] if isinstance(c["num"], int) else tuple(c["num"])
+        two_d = not isinstance(num, int)
+        cells = [(i, j) for i in range(num[0]) for j in range(num[1])] if two_d else list(range(num))
+        norm = (lambda x: tuple(int(v) for v in x)) if two_d else int
+        rng = random.Random(c["seed"])
+
+        def build(inner):
+            if c["given"]:
+                o = list(cells)
+                random.Random(c["seed"] + 5).shuffle(o)
+                return cpl.AsynchronousRule(apply_rule=inner, update_order=list(o))
+            return cpl.AsynchronousRule(apply_rule=inner, num_cells=num)
+
+        def go(ca, T, rule):
+            if two_d:
+                return cpl.evolve2d(ca, timesteps=T, apply_rule=rule, r=1, neighbourhood="Moore")
+            return cpl.evolve(ca, timesteps=T, apply_rule=rule, r=1)
+
+        shape = num if two_d else (num,)
+        i1, i2 = Rule("probe:3:2:1:0"), Rule("probe:3:2:1:0")
+        r1 = build(i1)
+        o1 = [norm(x) for x in r1._update_order]
+        if sorted(o1) != sorted(cells):
+            return "order generated from num_cells is not a permutation of all cells: %s" % (o1,)
+        a = np.array([[rng.randrange(3) for _ in range(int(np.prod(shape)))]], dtype="int64").reshape((1,) + shape)
+        b = np.array([[rng.randrange(3) for _ in range(int(np.prod(shape)))]], dtype="int64").reshape((1,) + shape)
+        if c["early"]:
+            r2 = build(i2)                       # both built before either is used
+            o2 = [norm(x) for x in r2._update_order]
+        first = go(a, c["T"], r1)
+        if not c["early"]:
+            r2 = build(i2)
+            o2 = [norm(x) for x in r2._update_order]
+        other = go(b, c["T2"], r2)
+        second = go(first, c["T3"], r1)
+        for (nm, o, log) in (("first", o1, i1.log), ("second", o2, i2.log)):
+            for k, (vals, shp, cc, tt) in enumerate(log):
+                if norm(cc) != o[k % len(o)] if two_d else cc != o[k % len(o)]:
+                    return ("update %d of the %s AsynchronousRule object went to cell %s, its own cyclic order %s schedules %s "
+                            "(two objects for automata of the same size, used alternately)" % (k + 1, nm, cc, o, o[k % len(o)]))
+        if len(i1.log) != c["T"] - 1 + c["T3"] - 1 or len(i2.log) != c["T2"] - 1:
+            return "wrapped rules invoked %d and %d times in %d and %d steps" % (len(i1.log), len(i2.log), c["T"] + c["T3"] - 2, c["T2"] - 1)
+        for (nm, res) in (("first", second), ("second", other)):
+            rows = res.tolist()
+            for t in range(1, len(rows)):
+                ch = int(np.sum(np.array(rows[t]) != np.array(rows[t - 1])))
+                if ch > 1:
+                    return "step %d of the %s evolution changed %d cells" % (t, nm, ch)
+        if [norm(x) for x in r1._update_order] != o1 or [norm(x) for x in r2._update_order] != o2:
+            return "the update order of a non-randomising AsynchronousRule changed after its construction"
+        return None
+    except Exception as e:  # noqa
+        return "raised %s: %s" % (type(e).__name__, str(e)[:120])
+    finally:
+        np.random.shuffle = saved
+
+
 def impl(c):
-    if c["kind"] == "cont":
+    if c["kind"] in ("cont", "twin"):
         return "n/a"
     res, inner, ar, fs = run(c)
     if isinstance(res, Exception):
@@ -182,6 +252,8 @@ def impl(c):
 def oracle(c):
     if c["kind"] == "cont":
         return oracle_cont(c)
+    if c["kind"] == "twin":
+        return oracle_twin(c)
     res, inner, ar, fs = run(c)
     if isinstance(res, Exception):
         return "raised %s: %s" % (type(res).__name__, str(res)[:80])
@@ -238,7 +310,7 @@ def oracle(c):
 
 
 def nontrivial(c, ans):
-    if c["kind"] in ("init", "cont"):
+    if c["kind"] in ("init", "cont", "twin"):
         return True
     if not ans.startswith("ok"):
         return False
@@ -246,7 +318,7 @@ def nontrivial(c, ans):
 
 
 def shrink(c):
-    if c["kind"] == "init":
+    if c["kind"] in ("init", "twin"):
         return
     if c["T"] > 2:
         yield dict(c, T=c["T"] - 1)
